@@ -373,6 +373,19 @@ func ruleBCE(c *Ctx, u *Universe, rule string, rels []string, fileFilter func(st
 		}
 		sort.Strings(cands)
 		if len(cands) == 0 {
+			// an entry of a function that no longer exists at all (inlined into several callers and deleted) may be
+			// claimed by each of the sites its body was copied to
+			for k := range table {
+				if !present[k] && pkgOf(k) == rel && exprOf(k) == exprOf(key) {
+					fn := k[:strings.Index(k, ":")]
+					if strings.HasPrefix(fn, rel+".") && u.ssaFuncExact(rel, fn[len(rel)+1:]) == nil {
+						cands = append(cands, k)
+					}
+				}
+			}
+			sort.Strings(cands)
+		}
+		if len(cands) == 0 {
 			return "", bceEntry{}, false
 		}
 		return cands[0], table[cands[0]], true
